@@ -42,12 +42,12 @@ CLAIMED = {
         note="PARTIAL: identity with the generic serde encoding and cross-decoding through serde are NOT decided (beve's serde walk exhausts memory under CBMC) - that is the first sentence of the property; 2 elements per instance; half floats and client/server routes over sockets outside; the borrowing bulk route (TypedSliceRefHandler, borrow-vs-copy by buffer alignment) needs > 11 GB per harness and is only in the unregistered 'experimental' tier.",
         ref="DESIGN.md §4 C08"),
     "C09": dict(
-        text="Sequential composition ChunkSink -> channel (FIFO contract) -> Session::pull -> chunk_response: concatenation equals the payload, exactly one final chunk, non-final chunks full-size, empty payload = one empty final chunk, for symbolic payload bytes at every boundary residue (instances).",
-        note="PARTIAL: uncompressed only (zstd is a C library); std sync_channel replaced by its FIFO contract with the producer run to completion first (depth/speed independence is the Kahn-determinism argument, trusted); NextHandler's done/release logic (beve + HashMap), the blocking/async/WebSocket pullers and typed/value producers outside; producer-failure path thorough-only.",
+        text="Sequential composition ChunkSink -> channel (FIFO contract) -> Session::pull -> chunk_response, also through the real producer engine produce() for a clean production, plus the Session protocol over symbolic producer message sequences (chunks then End / Fail / no marker): concatenation equals the payload, exactly one final chunk, non-final chunks full-size, empty payload = one empty final chunk, for symbolic payload bytes at every boundary residue (instances).",
+        note="PARTIAL: uncompressed only (zstd is a C library); std sync_channel replaced by its FIFO contract with the producer run to completion first (depth/speed independence is the Kahn-determinism argument, trusted); NextHandler's done/release logic (beve + HashMap), the blocking/async/WebSocket pullers and typed/value producers outside; a failing body writer inside produce() is outside (dropping the io::Error there does not finish under CBMC) - producer failure is decided at the Session level.",
         ref="DESIGN.md §4 C09"),
     "C10": dict(
-        text="Trailer clauses only: TrailerHold forwards exactly all but the last N bytes for symbolic streams across arbitrary write splits, returns exactly the last N bytes as trailer, and rejects a stream shorter than N without forwarding anything.",
-        note="NARROW: the commit protocol (temp file, last_seen, flush, fsync, rename, TempFile drop), crash points, the real filesystem and the async pullers are outside - std::fs::File/Client values cannot be stepped under Kani; a change to write_file/TempFile is not detected. (A commit-protocol harness with filesystem stubs was built and abandoned: Kani 0.68 hands back garbage for the return value of a stubbed function whose Result<_, RepeError> the caller drops immediately, producing spurious double-free reports; see DESIGN.md §2.)",
+        text="Two sequential kernels: (1) TrailerHold forwards exactly all but the last N bytes for symbolic streams across arbitrary write splits, returns exactly the last N bytes as trailer, and rejects a stream shorter than N without forwarding anything; (2) the TempFile guard under filesystem stubs with a trace oracle: the temp file is either published by exactly one rename(temp -> destination) or removed (drop without commit, failed rename), and no other operation ever names the destination path.",
+        note="NARROW: write_file's ordering (final chunk seen, fill ok, flush, fsync BEFORE commit), the verified / trailer-verified pullers around the guard, real crash points, the real filesystem and the async pullers are outside; a change confined to write_file or to a puller is not detected. (A commit-protocol harness with filesystem stubs was built and abandoned: Kani 0.68 hands back garbage for the return value of a stubbed function whose Result<_, RepeError> the caller drops immediately, producing spurious double-free reports; see DESIGN.md §2.)",
         ref="DESIGN.md §4 C10"),
     "C11": dict(
         text="One arbitrary operation (record_ack, record_sent, advance_to_file, cancel, request_resume, wait_for_credit with expired deadline, the documented producer step) from an arbitrary state satisfying acked <= sent, all values full 64-bit: an inductive step that covers histories of any length.",
